@@ -143,6 +143,35 @@ def _encode_rules(prog, res, f):
         sig_terms = xs
         d = "updates: %s" % [show(u, names) for u in ups]
     res.ob("M-bit", "%s | signal mask = OR of 1 << (32 - to_id(signal_id)), starting from 0" % tag, okb, d, loc)
+    # --- M-all: every row contributes.  An iteration of a row loop either returns an error or passes the mask update (and, in the signal loop,
+    #     the push onto the cell list): the updating block dominates every back edge of its loop.  A `continue` in front of the update would
+    #     leave a row out of the masks while the fragments still write its data.
+    def _update_blocks(acc):
+        out = []
+        for b in sorted(f.reachable()):
+            for i, s_ in enumerate(f.blocks[b]["stmts"]):
+                if s_["k"] == "assign" and s_["rv"]["k"] == "binop" and s_["rv"]["op"] == "BitOr":
+                    v = fa.rv_term(s_["rv"], (b, i))
+                    if v.op == "bin" and (v.args[1] is acc or v.args[2] is acc):
+                        out.append(b)
+        return out
+    loops = f.loops()
+    backs = {}
+    for (src_, h_) in f.back_edges():
+        backs.setdefault(h_, []).append(src_)
+    for nm, acc in (("satellite", sat_acc), ("signal", sig_acc), ("cell", cell_acc)):
+        if acc.op != "phi" or acc.args[2] not in loops:
+            continue
+        h_ = acc.args[2]
+        ub = _update_blocks(acc)
+        okall = bool(ub) and all(any(f.dominates(u, l_) for u in ub) for l_ in backs.get(h_, []))
+        res.ob("M-all", "%s | every %s row that is not refused updates the %s mask (the update dominates every back edge of its loop)" % (tag, "cell" if nm == "cell" else nm, nm),
+               okall, "update blocks %s, back edges from %s" % (ub, backs.get(h_)), loc)
+        if nm == "signal":
+            body = loops[h_]
+            pushes = [b for b, t in f.calls() if b in body and callee_of(t) == "tinyvec::ArrayVec::<A>::push"]
+            okp = len(pushes) == 1 and all(f.dominates(pushes[0], l_) for l_ in backs.get(h_, []))
+            res.ob("M-all", "%s | every signal row that is not refused is pushed onto the cell list" % tag, okp, "push blocks %s" % pushes, loc)
     # --- M-range: at every mask update the satellite id interval is exactly [1, 64]
     # (all Shl(1, 64 - x) terms on u64 in the function)
     shl_sites = []
